@@ -30,6 +30,7 @@ def dispatch (j : Json) : Json :=
   | "validate" => handleValidate j
   | "history" => handleHistory j
   | "pipeline" => handlePipeline j
+  | "explain" => handleExplain j
   | "report" => handleReport j
   | "rulesfile" => handleRulesFile j
   | "viewsfile" => handleViewsFile j
